@@ -9,6 +9,8 @@ Line-protocol interpreter of the C20 model.
   validate s | val              validate against the s-th schema of `Gen.C20.schemas`
   resolve kind | name [| eng]   kind 0 model class, 1 model config class, 2 engine class, 3 dataset config, 4 masking function
   flatten | val                 dict_flatten keys of a tree
+  reg kind i                    the i-th entry of a registry table (0 models, 1 engines, 2 datasets, 3 masking functions,
+                                4 TransformsType members, 5 referenced functionals, 6 referenced losses, 7 dataset base classes)
 
 Trees on the wire: 0 null | 1 missing | 2 i | 3 sym (float) | 4 b | 5 sym kind | 6 n e₁…eₙ | 7 n k₁ v₁ … kₙ vₙ.
 Path steps: `k ≥ 0` = map key `k`, `-(i+1)` = list index `i`.
@@ -103,6 +105,19 @@ def step (op : String) (gs : List (List Int)) : String :=
     else "err BadOp"
   | "resolve", [[2], name, eng] =>
     okG [[b2i (resolves T.modules (engineTarget (nats name) (if eng.isEmpty then none else some (nats eng))))]]
+  | "reg", [[kind, i]] =>
+    let i := i.toNat
+    let bit (b? : Option Bool) : String := match b? with | some b => okG [[b2i b]] | none => "err BadOp"
+    if kind = 0 then bit ((Gen.C20.registeredModels[i]?).map (modelRegistered T))
+    else if kind = 1 then bit ((Gen.C20.registeredEngines[i]?).map (engineReachable T))
+    else if kind = 2 then bit ((Gen.C20.registeredDatasets[i]?).map (datasetRegistered T))
+    else if kind = 3 then bit ((Gen.C20.registeredMaskFuncs[i]?).map (maskFuncRegistered T))
+    else if kind = 4 then bit ((Gen.C20.transformsTypes[i]?).map
+      (transformsTypeAccepted Gen.C20.transformSchema Gen.C20.kTransformsType))
+    else if kind = 5 then bit ((Gen.C20.referencedFunctionals[i]?).map (functionalResolves T))
+    else if kind = 6 then bit ((Gen.C20.referencedLosses[i]?).map (Gen.C20.permissibleLosses.contains ·))
+    else if kind = 7 then bit ((Gen.C20.datasetBaseClasses[i]?).map (datasetRegistered T))
+    else "err BadOp"
   | "flatten", [val] =>
     match decodeAll val with
     | some v => okG [(flattenKeys v).map Int.ofNat]
